@@ -466,6 +466,11 @@ def run(index, rep, tier):
         rep.floor("R06.8", "bit-agreement obligations", 10, n8)
 
 
+    # ---- R06.9 summaries of the merged multisets do not depend on arrival order
+    with rep.section("R06.9"):
+        rep.rule("R06.9", "what is computed from the per-split multisets is order-free: order statistics are read from the sorted sample (C05 R05.11)")
+        rep.floor("R06.9", "borrowed obligations", 1, borrow(index, rep, "C05", {"R05.11"}, "R06.9"))
+
 def _root_of(e):
     while isinstance(e, (ast.Attribute, ast.Subscript, ast.Call)):
         e = e.func if isinstance(e, ast.Call) else e.value
